@@ -38,6 +38,9 @@ def run(ctx):
     obs = ctx.obs
     obs.extra['meta'] = META
     contracts.attach_all(obs, only={'ravel_dimensions', 'wind_dimension'})
+    if ctx.thorough and ctx.shard == 0 and ctx.only_case is None:
+        from ..suite_contracts import run_repo_suite_with_contracts
+        run_repo_suite_with_contracts(obs, only='ravel_dimensions,wind_dimension')
     total = ctx.n(300, 9000)
     for case, rng in ctx.cases(total):
         conv = CONVENTIONS[case % len(CONVENTIONS)]
